@@ -152,7 +152,30 @@ def gen_T04():
     need(gb[:2] == ['user.secure = value', 'ircdb.users.setUser(user)'] if str_ is None
          else gb[:2] == ['secure = user.secure', 'user.secure = value'] and ifs[0].body[2] is str_,
          'set secure: body of the guarded branch changed')
+    # ---- src/ircdb.py: the lines the model of getUserId / setUser / checkHostmask mirrors statement by statement
+    d = tree('src/ircdb.py')
+    ud = find_class(d, 'UsersDictionary')
+    gid = _method(ud, 'getUserId')
+    need(isinstance(gid.body[-1], ast.If) and ast.unparse(gid.body[-1].test) == 'ircutils.isUserHostmask(s)', 'getUserId: outer if changed')
+    trs = [x for x in gid.body[-1].body if isinstance(x, ast.Try)]
+    need(len(trs) == 1 and len(trs[0].handlers) == 1 and ast.unparse(trs[0].handlers[0].type) == 'KeyError', 'getUserId: try/except KeyError changed')
+    need([ast.unparse(x) for x in trs[0].body] == ['id = self._hostmaskCache[s]', 'if self.users[id].checkHostmask(s):\n    return id',
+                                                  'self.invalidateCache(hostmask=s)', 'raise KeyError(s)'],
+         'getUserId: a cached id must be re-checked with self.users[id].checkHostmask(s), unconditionally, before it is answered: %r'
+         % [ast.unparse(x) for x in trs[0].body])
+    su = _method(ud, 'setUser')
+    sb = [ast.unparse(x) for x in su.body if not (isinstance(x, ast.Expr) and isinstance(x.value, ast.Constant))]
+    need(sb[:2] == ['self.nextId = max(self.nextId, user.id)',
+                    'for when, hostmask in user.auth:\n    self.invalidateCache(hostmask=hostmask)'],
+         'setUser: the cache entries of the hostmasks in user.auth must be dropped first: %r' % sb[:2])
+    ch = _method(find_class(d, 'IrcUser'), 'checkHostmask')
+    need('elif hostmask == authmask and (not self.secure or self.checkHostmask(hostmask, useAuth=False)):\n' in ast.unparse(ch)
+         and 'if timeout and when + timeout < time.time():' in ast.unparse(ch),
+         'IrcUser.checkHostmask: the login test changed')
     out = 'Require Import Base.Wire.\n'
+    out += '(* src/ircdb.py getUserId re-checks a cached id unconditionally; setUser drops the cache entries of user.auth first;\n'
+    out += '   checkHostmask honours a login of a secure user only with a matching mask: pinned by the extractor *)\n'
+    out += 'Definition LOOKUP_RECHECKS_CACHED : bool := true.\n'
     out += '(* the useAuth argument of the checkHostmask call in the guard of user set secure *)\n'
     out += 'Definition SECURE_GUARD_USEAUTH : bool := false.\n'
     out += '(* per command: (exception class, the handler puts the live account back) in source order, [] = no try around setUser *)\n'
@@ -161,4 +184,4 @@ def gen_T04():
     out += 'Definition HM_ADD_GUARDED : bool := %s.\n' % cbool(g)
     out += _emit('IDENTIFY_HANDLERS', id_h) + _emit('UNIDENTIFY_HANDLERS', un_h) + _emit('CHANGENAME_HANDLERS', cn_h)
     out += _emit('REMOVE_HANDLERS', rm_h) + _emit('REGISTER_HANDLERS', rg_h) + _emit('SECURE_HANDLERS', sc_h)
-    return 'plugins/User/plugin.py', out
+    return 'plugins/User/plugin.py, src/ircdb.py', out
